@@ -34,16 +34,9 @@ Definition set_model_z (off id : Z) (t : option Z) (a : list (option Z)) : optio
   | Some _ => option_map round_to_double (set_raw_z off id t a)
   end.
 
-(* newDateTime on arguments in thousandths: int() truncates every field, but the two-digit-year test
-   "year >= 0 && year <= 99" is made on the unconverted number (ES5 15.9.4.3 / 15.9.3.1 test ToInteger(y)) *)
-Definition utcq_model (l : list (option Z)) : option Z :=
-  match l with
-  | Some y :: _ =>
-      let yi := toint y in
-      let yr := if (0 <=? y) && (y <=? 99000) then 1900 + yi else yi in
-      option_map round_to_double (utc_fields yr (tointf l))
-  | _ => option_map round_to_double (utc_raw (tointf l))
-  end.
+(* newDateTime on arguments in thousandths: the year is truncated first (math.Trunc, repaired by 875fefb) and the
+   two-digit-year test is made on the truncated year; int() truncates every other field *)
+Definition utcq_model (l : list (option Z)) : option Z := option_map round_to_double (utc_raw (tointf l)).
 
 (* decimal digits, most significant first *)
 Fixpoint digits_fuel (fuel : nat) (n : Z) (acc : list Z) : list Z :=
